@@ -105,9 +105,13 @@ func c05(tier string, args []string) int {
 	shard, n, worker := vl.WorkerShard()
 	if !worker {
 		run.Set("configurations", len(cfgs))
-		return run.RunWorkers(len(cfgs))
+		return run.RunWorkers(len(cfgs) * 2)
 	}
 	run.SetDeadline(budget(tier))
+	// one goroutine per worker process: a panic in a search goroutine kills the process and is attributed to the
+	// journalled case by the parent
+	vl.SetWorkers(1)
+	sub := shard / len(cfgs)
 	cfg := cfgs[shard%len(cfgs)]
 	cfg.apply()
 	cfgName := cfg.diff(def)
@@ -147,7 +151,7 @@ func c05(tier string, args []string) int {
 	otherFen := "r3k2r/p1ppqpb1/bn2pnp1/3PN3/1p2P3/2N2Q1p/PPPBBPPP/R3K2R w KQkq - 0 1"
 	vl.Parallel(len(fens), func(fi, _ int) {
 		fen := fens[fi]
-		if run.Expired() {
+		if run.Expired() || fi%2 != sub {
 			return
 		}
 		r := refchess.MustFEN(fen)
